@@ -7,16 +7,26 @@ import re
 from rustcut import AnchorLost, code_mask, match_brace
 
 CLAUSE_KEYS = ('requires', 'ensures', 'decreases', 'invariant', 'invariant_except_break',
-               'proof_entry', 'proof_loop_entry', 'external_body', 'loop_ensures', 'opaque_body', 'fuel')
+               'proof_entry', 'proof_loop_entry', 'external_body', 'loop_ensures', 'opaque_body', 'fuel',
+               'attr', 'annotate', 'iter_name', 'proof')
 
 
 class SpecError(Exception):
     pass
 
 
+class Loops(dict):
+    """loops[(fn, k)] = {clause: text}; .closures[(fn, k)] = {clause: text}; .hints[fn] = [(where, target, text)]"""
+    def __init__(self):
+        dict.__init__(self)
+        self.closures = {}
+        self.hints = {}
+
+
 def parse_spec(text):
-    """-> (fns, loops).  fns[name] = {clause: text}, loops[(name, k)] = {clause: text}"""
-    fns, loops = {}, {}
+    """-> (fns, loops).  fns[name] = {clause: text}, loops[(name, k)] = {clause: text};
+    closure contracts and proof hints ride on the `loops` object (see class Loops)"""
+    fns, loops = {}, Loops()
     cur = None
     key = None
     for raw in text.split('\n'):
@@ -32,6 +42,20 @@ def parse_spec(text):
         if st.startswith('@loop '):
             nm, k = st[6:].strip().split('#')
             cur = loops.setdefault((nm, int(k)), {})
+            key = None
+            continue
+        if st.startswith('@closure '):
+            nm, k = st[9:].strip().split('#')
+            cur = loops.closures.setdefault((nm, int(k)), {})
+            key = None
+            continue
+        if st.startswith('@hint '):
+            # @hint FN before|after CALLEE[#k] | loop#k
+            parts = st[6:].split()
+            if len(parts) != 3 or parts[1] not in ('before', 'after'):
+                raise SpecError('malformed @hint line: ' + st)
+            cur = {}
+            loops.hints.setdefault(parts[0], []).append((parts[1], parts[2], cur))
             key = None
             continue
         if cur is None:
@@ -108,14 +132,79 @@ def resolve_marks(name, body, text):
     return re.sub(r'\$m(\d+)', rep, text)
 
 
+CLOSURE_RX = re.compile(r'\|([^|{};]*)\|\s*(->\s*\(\s*\w+\s*:[^)]*\)\s*)?\{')
+
+
+def find_closures(body):
+    """-> list of (params_start, params_end, brace_index) for every block-bodied closure in source order."""
+    mask = code_mask(body)
+    res = []
+    for mm in CLOSURE_RX.finditer(body):
+        if not mask[mm.start()]:
+            continue
+        k = mm.start() - 1
+        while k >= 0 and body[k].isspace():
+            k -= 1
+        if k >= 0 and body[k] not in '=(,':
+            continue
+        res.append((mm.start(1), mm.end(1), mm.end() - 1))
+    return res
+
+
+def split_args(s):
+    parts, depth, cur = [], 0, ''
+    for c in s:
+        if c in '([{':
+            depth += 1
+        elif c in ')]}':
+            depth -= 1
+        if c == ',' and depth == 0:
+            parts.append(cur.strip())
+            cur = ''
+        else:
+            cur += c
+    if cur.strip():
+        parts.append(cur.strip())
+    return parts
+
+
+def stmt_start(body, mask, idx):
+    """start of the statement containing position idx: just after the previous `;`, `{` or `}` in code"""
+    k = idx - 1
+    while k >= 0:
+        if mask[k] and body[k] in ';{}':
+            return k + 1
+        k -= 1
+    return 0
+
+
+def stmt_end(body, mask, idx):
+    """index just after the `;` that ends the statement containing position idx"""
+    pd = 0
+    k = idx
+    while k < len(body):
+        if mask[k]:
+            c = body[k]
+            if c in '([{':
+                pd += 1
+            elif c in ')]}':
+                pd -= 1
+                if pd < 0:
+                    return k
+            elif c == ';' and pd == 0:
+                return k + 1
+        k += 1
+    return len(body)
+
+
 def weave_body(name, body, loops_spec, proof_entry, used, fn_need=None):
     loops = find_loops(body)
+    mask = code_mask(body)
     orig_body = body
+    edits = []   # (position, replaced_length, text); applied from the back so positions stay valid
     # a @loop entry whose loop no longer exists is dropped (recorded by assemble), not fatal: the function is then
     # verified against its own contract with whatever loops it has now
-    # insert from the back so indices stay valid
-    out = body
-    for k in reversed(range(len(loops))):
+    for k in range(len(loops)):
         kw, br = loops[k]
         sp = loops_spec.get((name, k))
         if not sp:
@@ -145,7 +234,81 @@ def weave_body(name, body, loops_spec, proof_entry, used, fn_need=None):
         after = ''
         if sp.get('proof_loop_entry'):
             after = ' proof { ' + sp['proof_loop_entry'] + ' }'
-        out = out[:br] + ins + '{' + after + out[br + 1:]
+        edits.append((br, 1, ins + '{' + after))
+        if sp.get('iter_name'):
+            # `for PAT in EXPR` -> `for PAT in NAME: EXPR` (Verus' name for the ghost iterator; an annotation)
+            mm = re.compile(r'\bin\s+').search(orig_body, kw, br)
+            if not orig_body.startswith('for', kw) or not mm:
+                raise AnchorLost('%s: iter_name given for loop #%d, which is not a for loop' % (name, k))
+            edits.append((mm.end(), 0, sp['iter_name'].strip() + ': '))
+    # ---- closure contracts
+    closures = find_closures(orig_body)
+    for k, (ps, pe, br) in enumerate(closures):
+        sp = getattr(loops_spec, 'closures', {}).get((name, k))
+        if not sp:
+            continue
+        used.add((name, 'closure', k))
+        if sp.get('annotate'):
+            params = orig_body[ps:pe]
+            for ann in sp['annotate'].split(';'):
+                nm, ty = [x.strip() for x in ann.split(':', 1)]
+                params, n = re.subn(r'\b%s\b(?!\s*:)' % re.escape(nm), '%s: %s' % (nm, ty), params, count=1)
+                if n != 1:
+                    raise AnchorLost('%s: closure #%d has no untyped parameter `%s`' % (name, k, nm))
+            edits.append((ps, pe - ps, params))
+        cl = []
+        for key in ('requires', 'ensures'):
+            if sp.get(key):
+                cl.append('            %s %s' % (key, sp[key].rstrip(',') + ','))
+        if cl:
+            edits.append((br, 0, '\n' + '\n'.join(cl) + '\n        '))
+    # ---- proof hints at positional anchors (call ordinal / loop ordinal)
+    for where, target, sp in getattr(loops_spec, 'hints', {}).get(name, []):
+        text = sp.get('proof', '')
+        used.add((name, 'hint', where, target))
+        if target.startswith('loop#'):
+            k = int(target[5:])
+            if k >= len(loops):
+                raise AnchorLost('%s: @hint refers to loop #%d, the function has %d loops' % (name, k, len(loops)))
+            kw, br = loops[k]
+            if where == 'before':
+                edits.append((stmt_start(orig_body, mask, kw), 0, '\n        proof { ' + text + ' }\n'))
+            else:
+                edits.append((match_brace(orig_body, mask, br) + 1, 0, '\n        proof { ' + text + ' }\n'))
+            continue
+        callee, _, ordk = target.partition('#')
+        calls = [mm for mm in re.finditer(r'\b%s\s*\(' % re.escape(callee), orig_body) if mask[mm.start()]
+                 and not re.search(r'(fn|let)\s+$', orig_body[:mm.start()])]
+        if not calls:
+            raise AnchorLost('%s: @hint refers to calls of `%s`, there are none' % (name, callee))
+        if ordk:
+            if int(ordk) >= len(calls):
+                raise AnchorLost('%s: @hint refers to call %s, there are %d calls' % (name, target, len(calls)))
+            calls = [calls[int(ordk)]]
+        for mm in calls:
+            po = mm.end() - 1
+            pc = match_brace(orig_body, mask, po, '(', ')')
+            args = split_args(orig_body[po + 1:pc])
+            t = text
+            for ai, a in enumerate(args):
+                t = t.replace('$marg%d' % ai, re.sub(r'^&\s*mut\s+', '', a)).replace('$arg%d' % ai, '(' + a + ')')
+            if '$arg' in t or '$marg' in t:
+                raise AnchorLost('%s: @hint %s uses an argument placeholder the call does not have' % (name, target))
+            # the receiver, if it is a method call: `recv.callee(`
+            rm = re.search(r'([\w\.]+)\s*\.\s*$', orig_body[:mm.start()])
+            t = t.replace('$recv', rm.group(1) if rm else '')
+            if '$lhs' in t:
+                lm = re.match(r'\s*let\s+(?:mut\s+)?(\w+)\s*=', orig_body[stmt_start(orig_body, mask, mm.start()):mm.start()])
+                if not lm:
+                    raise AnchorLost('%s: @hint %s uses $lhs but the call is not the initialiser of a `let`' % (name, target))
+                t = t.replace('$lhs', lm.group(1))
+            if where == 'before':
+                edits.append((stmt_start(orig_body, mask, mm.start()), 0, '\n        proof { ' + t + ' }\n'))
+            else:
+                edits.append((stmt_end(orig_body, mask, mm.start()), 0, '\n        proof { ' + t + ' }\n'))
+    out = orig_body
+    for pos, ln, text in sorted(edits, key=lambda e: (e[0], e[1]), reverse=True):
+        out = out[:pos] + text + out[pos + ln:]
     if proof_entry:
         assert out[0] == '{'
         out = '{ proof { ' + proof_entry + ' }' + out[1:]
@@ -226,6 +389,8 @@ def emit_fn(item, fns_spec, loops_spec, used_fn, used_loop, defaulted, inferred=
     lines = []
     if 'external_body' in sp:
         lines.append('#[verifier::external_body]')
+    if sp.get('attr'):
+        lines.append(sp['attr'])
     lines.append(header)
     for key in ('requires', 'ensures', 'decreases'):
         if sp.get(key):
@@ -272,7 +437,7 @@ def emit_const(item):
     return spec + exec_
 
 
-def assemble(ex, prelude, fns_spec, loops_spec, stubs, top=None, inferred=None):
+def assemble(ex, prelude, fns_spec, loops_spec, stubs, top=None, inferred=None, with_bt=True):
     """-> (unit text, linemap [(unit_line, repo_path, repo_line, item name)], info)"""
     used_fn, used_loop, defaulted = set(), set(), []
     chunks = []   # (text, item or None)
@@ -281,6 +446,10 @@ def assemble(ex, prelude, fns_spec, loops_spec, stubs, top=None, inferred=None):
     chunks.append(('spec const FUEL: int = %d; // the literal Parser::bump resets the progress-guard fuel to (R10)\n' % ex['fuel_reset'], None))
     chunks.append((prelude + '\n', None))
     items = ex['items']
+    if not with_bt:
+        # fallback: the tree builder stays outside the Verus unit (its text is not within reach of the rewrites R11/R12);
+        # the bounded Kani harnesses are then the only check of Parser::build_tree
+        items = [it for it in items if it.name != 'Parser::build_tree']
     for it in items:
         if it.kind == 'type':
             chunks.append((it.text + '\n', it))
@@ -307,6 +476,8 @@ def assemble(ex, prelude, fns_spec, loops_spec, stubs, top=None, inferred=None):
     names = set(it.name for it in items if it.kind == 'fn')
     dropped_anchors = []
     for nm in fns_spec:
+        if nm == 'Parser::build_tree' and not with_bt:
+            continue
         if nm not in names:
             if nm in CORE_FNS:
                 raise AnchorLost('@fn %s: no such function in the working tree' % nm)
@@ -314,6 +485,13 @@ def assemble(ex, prelude, fns_spec, loops_spec, stubs, top=None, inferred=None):
     for key in loops_spec:
         if key not in used_loop:
             dropped_anchors.append('@loop %s#%d' % key)
+    if not with_bt:
+        used_loop |= set(k for k in loops_spec if k[0] == 'Parser::build_tree')
+    for key in getattr(loops_spec, 'closures', {}):
+        if key[0] == 'Parser::build_tree' and not with_bt:
+            continue
+        if (key[0], 'closure', key[1]) not in used_loop:
+            dropped_anchors.append('@closure %s#%d' % key)
     if len(dropped_anchors) > 8:
         raise AnchorLost('too many contract anchors no longer exist in the working tree: %s' % dropped_anchors[:10])
 
@@ -327,7 +505,8 @@ def assemble(ex, prelude, fns_spec, loops_spec, stubs, top=None, inferred=None):
         text += chunk
         line += n
     info = {'contracted': sorted(used_fn), 'defaulted': defaulted, 'dropped_anchors': dropped_anchors,
-            'loops_contracted': sorted('%s#%d' % k for k in used_loop)}
+            'loops_contracted': sorted('%s#%d' % k for k in used_loop if len(k) == 2),
+            'closures_contracted': sorted('%s#%d' % (k[0], k[2]) for k in used_loop if len(k) == 3 and k[1] == 'closure')}
     return text, linemap, info
 
 
